@@ -1,12 +1,29 @@
 import ArimModel.Assembly
 import ArimModel.Weights
+import ArimProofs.Lemmas.Reciprocity
+import Mathlib.Analysis.SpecialFunctions.Trigonometric.Complex
 import Mathlib.Tactic.Ring
 import Mathlib.Tactic.LinearCombination
 import Mathlib.Tactic.FieldSimp
-/-! # C03 — the immersion forward model is reciprocal -/
+/-! # C03 — the immersion forward model is reciprocal
+
+Contents.
+* `reciprocity_of_ratio`, `reciprocity_modelAmp`, `scatterer_relation_LT`: reciprocity of the model
+  coefficients from the structural fact (★) `Q = R_a · Q'` (`R_a` a function of the last mode only).
+* (★) itself, proved from the model for every immersion path (front-wall transmission followed
+  by any number of reflections against solid|fluid walls, arbitrary modes), pre-critical real ray:
+  `coef_ratio` (per-interface ratio of the direct and reverse coefficients),
+  `beamspread_ratio` (`B = √(∏γ) · B_rev`), `transRefl_beamspread_ratio` (telescoping),
+  `Q_ratio_geometry_independent`, the three path shapes of the immersion model `Q_ratio_direct`,
+  `Q_ratio_skip`, `Q_ratio_double_skip`, the constants `modeConst_L`, `modeConst_T`,
+  `modeConst_L_T` (`R_L c_L² = − R_T c_T²`), and the end-to-end statement `reciprocity_immersion`.
+* `goodFrom_of_precritical`, `exists_extendsArcsin`: the geometric hypotheses hold for every
+  pre-critical real ray and an arcsine routine extending the real arcsine.
+The supporting lemmas are in `Lemmas/Reciprocity.lean` (namespace `Arim.Recip`). -/
 namespace Arim.C03
 open Arim.Assembly
 
+section structural
 variable {C : Type} [CommRing C]
 
 /-- **Reciprocity from the two structural facts.** Let `A`, `B` be the transmit paths of a view
@@ -40,5 +57,425 @@ theorem scatterer_relation_LT {F : Type} [Field F] (K cL cT SLT STL : F) (hL : c
     (K / cL ^ 2) * SLT = (-(K / cT ^ 2)) * STL := by
   field_simp
   linear_combination K * h
+
+end structural
+
+/-! ## The structural fact (★) proved from the model -/
+noncomputable section star
+open Arim.Iface Arim.Weights Arim.Recip Arim.C04 Arim.C06
+
+/-- **Beamspread ratio** (step 2): `B = √(γ_1 ⋯ γ_{n−1}) · B_rev`, `γ_k` the interface factors of
+the direct routine; the underlying identity is `d_rev = (∏γ) · d` for the virtual distances
+(`Recip.virtualDistance_reverse`, `Recip.rev_virtualDistance`). No Snell's law is used. -/
+theorem beamspread_ratio (legs vels thetas : List ℝ)
+    (hlen : thetas.length + 1 = vels.length) (hlegs : legs.length = vels.length)
+    (hpos : ∀ γ ∈ gammas rT vels thetas, 0 < γ) :
+    beamspread rT legs vels thetas
+      = Real.sqrt (gammas rT vels thetas).prod * revBeamspread rT legs vels thetas :=
+  beamspread_eq_sqrt_mul_rev legs vels thetas hlen hlegs hpos
+
+/-- squared form of the beamspread ratio: `B_rev² · ∏γ = B²` -/
+theorem beamspread_ratio_sq (legs vels thetas : List ℝ)
+    (hlen : thetas.length + 1 = vels.length) (hlegs : legs.length = vels.length)
+    (hpos : ∀ γ ∈ gammas rT vels thetas, 0 < γ) :
+    revBeamspread rT legs vels thetas ^ 2 * (gammas rT vels thetas).prod
+      = beamspread rT legs vels thetas ^ 2 :=
+  beamspread_sq_eq legs vels thetas hlen hlegs hpos
+
+/-- **Per-interface coefficient ratio** (step 1), displacement units; see `Recip.coef_ratio`:
+`coef(direct) · ρ_out c_out cos θ_out = σ_in σ_out · coef(reverse) · ρ_in c_in cos θ_in` for the
+front-wall transmission (`ℓ = none`, `L → b`) and for a reflection `a → b` against a solid|fluid
+wall (`ℓ = some a`), `θ_out = snell θ_in` being the incidence angle of the reverse routine -/
+theorem coef_ratio (asin : ℂ → ℂ) (m : Media ℂ) (hsin : ∀ x, Complex.sin (asin x) = x)
+    (hρf : m.rhoF ≠ 0) (hρs : m.rhoS ≠ 0) (hcf : m.cF ≠ 0) (hcl : m.cL ≠ 0) (hct : m.cT ≠ 0)
+    (ℓ : Leg) (b : Mode) (θ : ℂ) (hasin : asin (Complex.sin θ) = θ) (hcos : Complex.cos θ ≠ 0) :
+    ∃ cd cr : ℂ,
+      coef (cTrig asin) m true (specOf m ℓ b θ) = .ok cd ∧
+      coef (cTrig asin) m true (revSpec (cTrig asin) (specOf m ℓ b θ)) = .ok cr ∧
+      cd * (legRho m (some b) * legVel m (some b)
+              * Complex.cos (snell (cTrig asin) θ (legVel m ℓ) (legVel m (some b))))
+        = legSign ℓ * legSign (some b) * (cr * (legRho m ℓ * legVel m ℓ * Complex.cos θ)) :=
+  Recip.coef_ratio asin m hsin hρf hρs hcf hcl hct ℓ b θ hasin hcos
+
+theorem specsFrom_ne_nil (m : Media ℂ) (ℓ : Leg) (steps : List Step) (hne : steps ≠ []) :
+    specsFrom m ℓ steps ≠ [] := by
+  cases steps with
+  | nil => exact absurd rfl hne
+  | cons st sts => simp [specsFrom]
+
+/-- the last leg of a non-empty path is in the solid, with the outgoing mode of the last interface -/
+theorem lastLeg_eq_getLast (ℓ : Leg) (steps : List Step) (hne : steps ≠ []) :
+    lastLeg ℓ steps = some (steps.getLast hne).mOut := by
+  induction steps generalizing ℓ with
+  | nil => exact absurd rfl hne
+  | cons st sts ih =>
+    cases sts with
+    | nil => rfl
+    | cons st' sts' =>
+      rw [List.getLast_cons (by simp)]
+      exact ih (some st.mOut) (by simp)
+
+/-- **Telescoping** (step 3). For a path that starts along leg `ℓ` (`none` = fluid) and crosses the
+interior interfaces `steps` (the front wall if it starts in the fluid, then reflections against
+solid|fluid walls; arbitrary modes), with legs of arbitrary lengths `legs`:
+
+`T · B · G(last leg) = σ(first leg) σ(last leg) · T_rev · B_rev · G(first leg)`, `G = ρ c^{3/2}`,
+
+where `T`, `T_rev` are the values returned by `transRefl`, `revTransRefl` in displacement units
+(neither is an error) and `B`, `B_rev` the values of `beamspread`, `revBeamspread`. No angle and
+no leg length appears in the ratio. -/
+theorem transRefl_beamspread_ratio (asin : ℂ → ℂ) (hsin : ∀ x, Complex.sin (asin x) = x)
+    (m : Media ℝ) (h : MediaPos m) (ℓ : Leg) (steps : List Step) (hne : steps ≠ [])
+    (legs : List ℝ) (hlegs : legs.length = steps.length + 1) (hg : GoodFrom asin m ℓ steps) :
+    ∃ T Trev : ℂ,
+      transRefl (cTrig asin) (toC m) true (specsFrom (toC m) ℓ steps) = .ok (some T) ∧
+      revTransRefl (cTrig asin) (toC m) true (specsFrom (toC m) ℓ steps) = .ok (some Trev) ∧
+      T * (beamspread rT legs (velsFrom m ℓ steps) (steps.map (·.θ)) : ℝ)
+          * (legG m (lastLeg ℓ steps) : ℝ)
+        = legSign ℓ * legSign (lastLeg ℓ steps)
+          * (Trev * (revBeamspread rT legs (velsFrom m ℓ steps) (steps.map (·.θ)) : ℝ)
+              * (legG m ℓ : ℝ)) := by
+  obtain ⟨h1, h2, h3⟩ := coef_telescope hsin h ℓ steps hg
+  have hnil := specsFrom_ne_nil (toC m) ℓ steps hne
+  refine ⟨((specsFrom (toC m) ℓ steps).map (coefVal (cTrig asin) (toC m) true)).prod,
+    (((specsFrom (toC m) ℓ steps).map (revSpec (cTrig asin))).map
+      (coefVal (cTrig asin) (toC m) true)).prod, ?_, ?_, ?_⟩
+  · rw [transRefl_ok _ _ _ _ h1, if_neg hnil]
+  · rw [revTransRefl, transRefl_ok _ _ _ _ h2, if_neg (by simpa using hnil)]
+  · have hγ := gammas_eq_gammaList hsin h ℓ steps hg
+    have hB := beamspread_eq_sqrt_mul_rev legs (velsFrom m ℓ steps) (steps.map (·.θ))
+      (by rw [velsFrom_length]; simp) (by rw [velsFrom_length]; exact hlegs)
+      (by rw [hγ]; exact gammaList_pos h ℓ steps hg)
+    rw [hγ] at hB
+    have hC := sqrt_gamma_telescope h ℓ steps hg
+    have hK : ((Kin m ℓ steps : ℝ) : ℂ) ≠ 0 := by exact_mod_cast (Kin_pos h ℓ steps hg).ne'
+    have hB' : ((beamspread rT legs (velsFrom m ℓ steps) (steps.map (·.θ)) : ℝ) : ℂ)
+        = (Real.sqrt (gammaList m ℓ steps).prod : ℝ)
+          * (revBeamspread rT legs (velsFrom m ℓ steps) (steps.map (·.θ)) : ℝ) := by
+      exact_mod_cast hB
+    have hC' : ((Real.sqrt (gammaList m ℓ steps).prod : ℝ) : ℂ) * (Kin m ℓ steps : ℝ)
+          * (legG m (lastLeg ℓ steps) : ℝ)
+        = (Kout m steps : ℝ) * (legG m ℓ : ℝ) := by exact_mod_cast hC
+    apply mul_right_cancel₀ hK
+    linear_combination
+      (((specsFrom (toC m) ℓ steps).map (coefVal (cTrig asin) (toC m) true)).prod
+          * (legG m (lastLeg ℓ steps) : ℝ) * (Kin m ℓ steps : ℝ)) * hB'
+      + (((specsFrom (toC m) ℓ steps).map (coefVal (cTrig asin) (toC m) true)).prod
+          * (revBeamspread rT legs (velsFrom m ℓ steps) (steps.map (·.θ)) : ℝ)) * hC'
+      + ((revBeamspread rT legs (velsFrom m ℓ steps) (steps.map (·.θ)) : ℝ) * (legG m ℓ : ℝ)) * h3
+
+/-- the constant of (★): `R = σ(first) σ(last) · ρ₀ c₀^{3/2} / (ρ_n c_n^{3/2} · √(c_n / f))` -/
+def ratioConst (m : Media ℝ) (f : ℝ) (ℓ₀ ℓ : Leg) : ℂ :=
+  legSign ℓ₀ * legSign ℓ * ((legG m ℓ₀ / (legG m ℓ * Real.sqrt (legVel m ℓ / f)) : ℝ) : ℂ)
+
+/-- the constant of (★) for an immersion path (first leg in the fluid) whose last leg has mode `a`:
+`R_a = ± ρ_f c_f^{3/2} / (ρ_s c_a^{3/2} √(c_a/f))`, `+` for `L`, `−` for `T` -/
+def modeConst (m : Media ℝ) (f : ℝ) (a : Mode) : ℂ := ratioConst m f none (some a)
+
+/-- **(★) for every immersion-type path.** With the transmission/reflection and beamspread terms
+switched on (directivity and attenuation on or off), the transmit weight of the path is the
+receive weight times a constant that depends on the media, the frequency and the labels of the
+first and last legs only: `Q = R · Q'`, whatever the angles and the leg lengths.
+`dir` and `att` (the same in `Q` and `Q'`) are arbitrary. -/
+theorem Q_ratio_general (asin : ℂ → ℂ) (hsin : ∀ x, Complex.sin (asin x) = x)
+    (m : Media ℝ) (h : MediaPos m) (f : ℝ) (hf : 0 < f) (ℓ : Leg) (steps : List Step)
+    (hne : steps ≠ []) (legs : List ℝ) (hlegs : legs.length = steps.length + 1)
+    (hg : GoodFrom asin m ℓ steps)
+    (sw : Switches) (hsw₁ : sw.transrefl = true) (hsw₂ : sw.beamspread = true) (dir att : ℂ) :
+    ∃ T Trev : ℂ,
+      transRefl (cTrig asin) (toC m) true (specsFrom (toC m) ℓ steps) = .ok (some T) ∧
+      revTransRefl (cTrig asin) (toC m) true (specsFrom (toC m) ℓ steps) = .ok (some Trev) ∧
+      txWeight sw 1 dir T (beamspread rT legs (velsFrom m ℓ steps) (steps.map (·.θ)) : ℝ) att
+        = ratioConst m f ℓ (lastLeg ℓ steps)
+          * rxWeight sw 1 dir Trev (revBeamspread rT legs (velsFrom m ℓ steps) (steps.map (·.θ)) : ℝ)
+              att (Real.sqrt (legVel m (lastLeg ℓ steps) / f) : ℝ) := by
+  obtain ⟨T, Trev, hT, hTr, key⟩ :=
+    transRefl_beamspread_ratio asin hsin m h ℓ steps hne legs hlegs hg
+  refine ⟨T, Trev, hT, hTr, ?_⟩
+  have hG : ((legG m (lastLeg ℓ steps) : ℝ) : ℂ) ≠ 0 := by
+    exact_mod_cast (legG_pos h _).ne'
+  have hs : ((Real.sqrt (legVel m (lastLeg ℓ steps) / f) : ℝ) : ℂ) ≠ 0 := by
+    exact_mod_cast (Real.sqrt_pos.2 (div_pos (legVel_pos h _) hf)).ne'
+  simp only [txWeight, rxWeight, hsw₁, hsw₂, ratioConst]
+  generalize pick sw.directivity dir (1 : ℂ) = D
+  generalize pick sw.attenuation att (1 : ℂ) = A
+  simp only [pick, if_true]
+  push_cast
+  field_simp
+  linear_combination (D * A) * key
+
+/-- **(★) for the immersion model: `Q = R_a · Q'`, `R_a` a function of the last mode `a` only.**
+For every path of the block-in-immersion model — probe, fluid, front-wall transmission into mode
+`m₁`, then any number of reflections `m₁ → m₂ → …` against solid|fluid walls — with arbitrary real
+incidence angles `θ_k` and leg lengths:
+
+* `transRefl` and `revTransRefl` (displacement units) return values `T`, `T_rev`, no error;
+* `txWeight … T B … = modeConst(a) · rxWeight … T_rev B_rev … √(c_a/f)` where `a` is the mode of the
+  last leg, `B`, `B_rev` are `beamspread`, `revBeamspread`, and `modeConst(a) = ± K / c_a²`
+  (`modeConst_L`, `modeConst_T`) does not depend on the geometry.
+
+Hypotheses: positive densities, velocities and frequency; the external arcsine is a right inverse
+of the sine; at every interior interface (`GoodFrom`) it returns the real incidence angle at its
+sine and the real exit angle `φ_k` at the Snell argument, and `cos θ_k > 0`, `cos φ_k > 0`
+(pre-critical ray; see `goodFrom_of_precritical`); the transmission/reflection and beamspread
+terms are both switched on. -/
+theorem Q_ratio_geometry_independent (asin : ℂ → ℂ) (hsin : ∀ x, Complex.sin (asin x) = x)
+    (m : Media ℝ) (h : MediaPos m) (f : ℝ) (hf : 0 < f) (steps : List Step)
+    (hne : steps ≠ []) (legs : List ℝ) (hlegs : legs.length = steps.length + 1)
+    (hg : GoodFrom asin m none steps)
+    (sw : Switches) (hsw₁ : sw.transrefl = true) (hsw₂ : sw.beamspread = true) (dir att : ℂ) :
+    ∃ T Trev : ℂ,
+      transRefl (cTrig asin) (toC m) true (specsFrom (toC m) none steps) = .ok (some T) ∧
+      revTransRefl (cTrig asin) (toC m) true (specsFrom (toC m) none steps) = .ok (some Trev) ∧
+      txWeight sw 1 dir T (beamspread rT legs (velsFrom m none steps) (steps.map (·.θ)) : ℝ) att
+        = modeConst m f (steps.getLast hne).mOut
+          * rxWeight sw 1 dir Trev
+              (revBeamspread rT legs (velsFrom m none steps) (steps.map (·.θ)) : ℝ)
+              att (Real.sqrt (velS m (steps.getLast hne).mOut / f) : ℝ) := by
+  have := Q_ratio_general asin hsin m h f hf none steps hne legs hlegs hg sw hsw₁ hsw₂ dir att
+  rw [lastLeg_eq_getLast none steps hne] at this
+  exact this
+
+/-! ### The constant -/
+
+/-- `K = ρ_f c_f^{3/2} √f / ρ_s` -/
+def constK (m : Media ℝ) (f : ℝ) : ℝ := m.rhoF * m.cF * Real.sqrt m.cF * Real.sqrt f / m.rhoS
+
+theorem legG_mul_sqrtLam (m : Media ℝ) (h : MediaPos m) (f : ℝ) (hf : 0 < f) (a : Mode) :
+    legG m (some a) * Real.sqrt (velS m a / f) = m.rhoS * velS m a ^ 2 / Real.sqrt f := by
+  have hv := velS_pos h a
+  have hs : Real.sqrt f ≠ 0 := (Real.sqrt_pos.2 hf).ne'
+  have e : Real.sqrt (velS m a) * Real.sqrt (velS m a) = velS m a := Real.mul_self_sqrt hv.le
+  simp only [legG, legRho, legVel]
+  rw [Real.sqrt_div hv.le]
+  field_simp
+  linear_combination m.rhoS * e
+
+theorem ratioConst_fluid (m : Media ℝ) (h : MediaPos m) (f : ℝ) (hf : 0 < f) (a : Mode) :
+    ((legG m none / (legG m (some a) * Real.sqrt (velS m a / f)) : ℝ)) = constK m f / velS m a ^ 2 := by
+  have hv := velS_pos h a
+  have hs : Real.sqrt f ≠ 0 := (Real.sqrt_pos.2 hf).ne'
+  have hρ := h.rhoS.ne'
+  rw [legG_mul_sqrtLam m h f hf a]
+  simp only [legG, legRho, legVel, constK]
+  field_simp
+
+/-- `R_L = K / c_L²` -/
+theorem modeConst_L (m : Media ℝ) (h : MediaPos m) (f : ℝ) (hf : 0 < f) :
+    modeConst m f .L = ((constK m f : ℝ) : ℂ) / ((m.cL : ℝ) : ℂ) ^ 2 := by
+  have := ratioConst_fluid m h f hf .L
+  simp only [modeConst, ratioConst, legSign, legVel, velS] at this ⊢
+  rw [this]; push_cast; ring
+
+/-- `R_T = − K / c_T²` -/
+theorem modeConst_T (m : Media ℝ) (h : MediaPos m) (f : ℝ) (hf : 0 < f) :
+    modeConst m f .T = -(((constK m f : ℝ) : ℂ) / ((m.cT : ℝ) : ℂ) ^ 2) := by
+  have := ratioConst_fluid m h f hf .T
+  simp only [modeConst, ratioConst, legSign, legVel, velS] at this ⊢
+  rw [this]; push_cast; ring
+
+/-- **`R_L / R_T = − c_T² / c_L²`**, in multiplicative form -/
+theorem modeConst_L_T (m : Media ℝ) (h : MediaPos m) (f : ℝ) (hf : 0 < f) :
+    modeConst m f .L * ((m.cL : ℝ) : ℂ) ^ 2 = -(modeConst m f .T * ((m.cT : ℝ) : ℂ) ^ 2) := by
+  have hl : ((m.cL : ℝ) : ℂ) ≠ 0 := by exact_mod_cast h.cL.ne'
+  have ht : ((m.cT : ℝ) : ℂ) ≠ 0 := by exact_mod_cast h.cT.ne'
+  rw [modeConst_L m h f hf, modeConst_T m h f hf]
+  field_simp
+
+/-- hypothesis (ii) of `reciprocity_of_ratio` for the model's constants is the scatterer relation
+of C09: `c_T² S_LT(x,y) = − c_L² S_TL(y,x)` -/
+theorem scatterer_relation_modeConst (m : Media ℝ) (h : MediaPos m) (f : ℝ) (hf : 0 < f) (SLT STL : ℂ)
+    (hS : ((m.cT : ℝ) : ℂ) ^ 2 * SLT = -(((m.cL : ℝ) : ℂ) ^ 2 * STL)) :
+    modeConst m f .L * SLT = modeConst m f .T * STL := by
+  rw [modeConst_L m h f hf, modeConst_T m h f hf]
+  exact scatterer_relation_LT _ _ _ _ _ (by exact_mod_cast h.cL.ne') (by exact_mod_cast h.cT.ne') hS
+
+/-! ### The three path shapes of the immersion model, written out -/
+
+/-- **direct path** (probe – front wall – scatterer, mode `b` in the solid) -/
+theorem Q_ratio_direct (asin : ℂ → ℂ) (hsin : ∀ x, Complex.sin (asin x) = x)
+    (m : Media ℝ) (h : MediaPos m) (f : ℝ) (hf : 0 < f) (b : Mode) (θ φ r₁ r₂ : ℝ)
+    (hasin : asin (Complex.sin θ) = θ)
+    (hφ : snell (cTrig asin) (θ : ℂ) (toC m).cF (velS (toC m) b) = φ)
+    (hcθ : 0 < Real.cos θ) (hcφ : 0 < Real.cos φ)
+    (sw : Switches) (hsw₁ : sw.transrefl = true) (hsw₂ : sw.beamspread = true) (dir att : ℂ) :
+    ∃ T Trev : ℂ,
+      transRefl (cTrig asin) (toC m) true
+        [⟨true, .fluidSolid, .L, b, θ, (toC m).cF, velS (toC m) b⟩] = .ok (some T) ∧
+      revTransRefl (cTrig asin) (toC m) true
+        [⟨true, .fluidSolid, .L, b, θ, (toC m).cF, velS (toC m) b⟩] = .ok (some Trev) ∧
+      txWeight sw 1 dir T (beamspread rT [r₁, r₂] [m.cF, velS m b] [θ] : ℝ) att
+        = modeConst m f b
+          * rxWeight sw 1 dir Trev (revBeamspread rT [r₁, r₂] [m.cF, velS m b] [θ] : ℝ) att
+              (Real.sqrt (velS m b / f) : ℝ) :=
+  Q_ratio_geometry_independent asin hsin m h f hf [⟨b, θ, φ⟩] (by simp) [r₁, r₂] rfl
+    ⟨⟨hasin, hφ, hcθ, hcφ⟩, trivial⟩ sw hsw₁ hsw₂ dir att
+
+/-- **skip path** (front wall into mode `a`, one reflection `a → b`) -/
+theorem Q_ratio_skip (asin : ℂ → ℂ) (hsin : ∀ x, Complex.sin (asin x) = x)
+    (m : Media ℝ) (h : MediaPos m) (f : ℝ) (hf : 0 < f) (a b : Mode)
+    (θ₁ φ₁ θ₂ φ₂ r₁ r₂ r₃ : ℝ)
+    (hasin₁ : asin (Complex.sin θ₁) = θ₁)
+    (hφ₁ : snell (cTrig asin) (θ₁ : ℂ) (toC m).cF (velS (toC m) a) = φ₁)
+    (hcθ₁ : 0 < Real.cos θ₁) (hcφ₁ : 0 < Real.cos φ₁)
+    (hasin₂ : asin (Complex.sin θ₂) = θ₂)
+    (hφ₂ : snell (cTrig asin) (θ₂ : ℂ) (velS (toC m) a) (velS (toC m) b) = φ₂)
+    (hcθ₂ : 0 < Real.cos θ₂) (hcφ₂ : 0 < Real.cos φ₂)
+    (sw : Switches) (hsw₁ : sw.transrefl = true) (hsw₂ : sw.beamspread = true) (dir att : ℂ) :
+    ∃ T Trev : ℂ,
+      transRefl (cTrig asin) (toC m) true
+        [⟨true, .fluidSolid, .L, a, θ₁, (toC m).cF, velS (toC m) a⟩,
+         ⟨false, .solidFluid, a, b, θ₂, velS (toC m) a, velS (toC m) b⟩] = .ok (some T) ∧
+      revTransRefl (cTrig asin) (toC m) true
+        [⟨true, .fluidSolid, .L, a, θ₁, (toC m).cF, velS (toC m) a⟩,
+         ⟨false, .solidFluid, a, b, θ₂, velS (toC m) a, velS (toC m) b⟩] = .ok (some Trev) ∧
+      txWeight sw 1 dir T
+          (beamspread rT [r₁, r₂, r₃] [m.cF, velS m a, velS m b] [θ₁, θ₂] : ℝ) att
+        = modeConst m f b
+          * rxWeight sw 1 dir Trev
+              (revBeamspread rT [r₁, r₂, r₃] [m.cF, velS m a, velS m b] [θ₁, θ₂] : ℝ) att
+              (Real.sqrt (velS m b / f) : ℝ) :=
+  Q_ratio_geometry_independent asin hsin m h f hf [⟨a, θ₁, φ₁⟩, ⟨b, θ₂, φ₂⟩] (by simp)
+    [r₁, r₂, r₃] rfl ⟨⟨hasin₁, hφ₁, hcθ₁, hcφ₁⟩, ⟨hasin₂, hφ₂, hcθ₂, hcφ₂⟩, trivial⟩
+    sw hsw₁ hsw₂ dir att
+
+/-- **double-skip path** (front wall into mode `a`, reflections `a → b`, `b → c`) -/
+theorem Q_ratio_double_skip (asin : ℂ → ℂ) (hsin : ∀ x, Complex.sin (asin x) = x)
+    (m : Media ℝ) (h : MediaPos m) (f : ℝ) (hf : 0 < f) (a b c : Mode)
+    (θ₁ φ₁ θ₂ φ₂ θ₃ φ₃ r₁ r₂ r₃ r₄ : ℝ)
+    (hasin₁ : asin (Complex.sin θ₁) = θ₁)
+    (hφ₁ : snell (cTrig asin) (θ₁ : ℂ) (toC m).cF (velS (toC m) a) = φ₁)
+    (hcθ₁ : 0 < Real.cos θ₁) (hcφ₁ : 0 < Real.cos φ₁)
+    (hasin₂ : asin (Complex.sin θ₂) = θ₂)
+    (hφ₂ : snell (cTrig asin) (θ₂ : ℂ) (velS (toC m) a) (velS (toC m) b) = φ₂)
+    (hcθ₂ : 0 < Real.cos θ₂) (hcφ₂ : 0 < Real.cos φ₂)
+    (hasin₃ : asin (Complex.sin θ₃) = θ₃)
+    (hφ₃ : snell (cTrig asin) (θ₃ : ℂ) (velS (toC m) b) (velS (toC m) c) = φ₃)
+    (hcθ₃ : 0 < Real.cos θ₃) (hcφ₃ : 0 < Real.cos φ₃)
+    (sw : Switches) (hsw₁ : sw.transrefl = true) (hsw₂ : sw.beamspread = true) (dir att : ℂ) :
+    ∃ T Trev : ℂ,
+      transRefl (cTrig asin) (toC m) true
+        [⟨true, .fluidSolid, .L, a, θ₁, (toC m).cF, velS (toC m) a⟩,
+         ⟨false, .solidFluid, a, b, θ₂, velS (toC m) a, velS (toC m) b⟩,
+         ⟨false, .solidFluid, b, c, θ₃, velS (toC m) b, velS (toC m) c⟩] = .ok (some T) ∧
+      revTransRefl (cTrig asin) (toC m) true
+        [⟨true, .fluidSolid, .L, a, θ₁, (toC m).cF, velS (toC m) a⟩,
+         ⟨false, .solidFluid, a, b, θ₂, velS (toC m) a, velS (toC m) b⟩,
+         ⟨false, .solidFluid, b, c, θ₃, velS (toC m) b, velS (toC m) c⟩] = .ok (some Trev) ∧
+      txWeight sw 1 dir T
+          (beamspread rT [r₁, r₂, r₃, r₄] [m.cF, velS m a, velS m b, velS m c] [θ₁, θ₂, θ₃] : ℝ) att
+        = modeConst m f c
+          * rxWeight sw 1 dir Trev
+              (revBeamspread rT [r₁, r₂, r₃, r₄] [m.cF, velS m a, velS m b, velS m c] [θ₁, θ₂, θ₃] : ℝ)
+              att (Real.sqrt (velS m c / f) : ℝ) :=
+  Q_ratio_geometry_independent asin hsin m h f hf [⟨a, θ₁, φ₁⟩, ⟨b, θ₂, φ₂⟩, ⟨c, θ₃, φ₃⟩] (by simp)
+    [r₁, r₂, r₃, r₄] rfl
+    ⟨⟨hasin₁, hφ₁, hcθ₁, hcφ₁⟩, ⟨hasin₂, hφ₂, hcθ₂, hcφ₂⟩, ⟨hasin₃, hφ₃, hcθ₃, hcφ₃⟩, trivial⟩
+    sw hsw₁ hsw₂ dir att
+
+/-! ### Reciprocity of the model coefficients, end to end -/
+
+/-- **Reciprocity of the immersion model.** Let `A` (from element `i`) and `B` (from element `j`)
+be two immersion paths to the same scatterer, with last modes `a`, `b`, and let the scattering
+amplitudes satisfy `R_a · S_ab = R_b · S_ba` (hypothesis (ii) of `reciprocity_of_ratio`; for
+`a = b` it says `S_aa` symmetric, for `a ≠ b` it is `scatterer_relation_modeConst`). Then the
+coefficient `S_ab · Q_A · Q'_B` of view `A–B` (transmit `i`, receive `j`) equals the coefficient
+`S_ba · Q_B · Q'_A` of the reciprocal view (transmit `j`, receive `i`), where `Q`, `Q'` are the
+weights `txWeight`, `rxWeight` assembled from the values of `transRefl`, `revTransRefl`,
+`beamspread`, `revBeamspread`; no structural hypothesis on the weights is left. -/
+theorem reciprocity_immersion (asin : ℂ → ℂ) (hsin : ∀ x, Complex.sin (asin x) = x)
+    (m : Media ℝ) (h : MediaPos m) (f : ℝ) (hf : 0 < f)
+    (stepsA stepsB : List Step) (hneA : stepsA ≠ []) (hneB : stepsB ≠ [])
+    (legsA legsB : List ℝ) (hlegsA : legsA.length = stepsA.length + 1)
+    (hlegsB : legsB.length = stepsB.length + 1)
+    (hgA : GoodFrom asin m none stepsA) (hgB : GoodFrom asin m none stepsB)
+    (sw : Switches) (hsw₁ : sw.transrefl = true) (hsw₂ : sw.beamspread = true)
+    (dirA attA dirB attB Sab Sba : ℂ)
+    (hS : modeConst m f (stepsA.getLast hneA).mOut * Sab
+        = modeConst m f (stepsB.getLast hneB).mOut * Sba) :
+    ∃ TA TrevA TB TrevB : ℂ,
+      transRefl (cTrig asin) (toC m) true (specsFrom (toC m) none stepsA) = .ok (some TA) ∧
+      revTransRefl (cTrig asin) (toC m) true (specsFrom (toC m) none stepsA) = .ok (some TrevA) ∧
+      transRefl (cTrig asin) (toC m) true (specsFrom (toC m) none stepsB) = .ok (some TB) ∧
+      revTransRefl (cTrig asin) (toC m) true (specsFrom (toC m) none stepsB) = .ok (some TrevB) ∧
+      Sab
+        * txWeight sw 1 dirA TA
+            (beamspread rT legsA (velsFrom m none stepsA) (stepsA.map (·.θ)) : ℝ) attA
+        * rxWeight sw 1 dirB TrevB
+            (revBeamspread rT legsB (velsFrom m none stepsB) (stepsB.map (·.θ)) : ℝ) attB
+            (Real.sqrt (velS m (stepsB.getLast hneB).mOut / f) : ℝ)
+      = Sba
+        * txWeight sw 1 dirB TB
+            (beamspread rT legsB (velsFrom m none stepsB) (stepsB.map (·.θ)) : ℝ) attB
+        * rxWeight sw 1 dirA TrevA
+            (revBeamspread rT legsA (velsFrom m none stepsA) (stepsA.map (·.θ)) : ℝ) attA
+            (Real.sqrt (velS m (stepsA.getLast hneA).mOut / f) : ℝ) := by
+  obtain ⟨TA, TrevA, hTA, hTrA, hA⟩ := Q_ratio_geometry_independent asin hsin m h f hf stepsA hneA
+    legsA hlegsA hgA sw hsw₁ hsw₂ dirA attA
+  obtain ⟨TB, TrevB, hTB, hTrB, hB⟩ := Q_ratio_geometry_independent asin hsin m h f hf stepsB hneB
+    legsB hlegsB hgB sw hsw₁ hsw₂ dirB attB
+  exact ⟨TA, TrevA, TB, TrevB, hTA, hTrA, hTB, hTrB,
+    reciprocity_of_ratio _ _ _ _ _ _ _ _ hA hB hS⟩
+
+/-! ### The hypotheses are satisfiable: pre-critical real rays -/
+
+/-- an arcsine routine that is a right inverse of the complex sine and agrees with the real
+arcsine on `[−1, 1]` (as the principal complex arcsine does) -/
+def ExtendsArcsin (asin : ℂ → ℂ) : Prop :=
+  (∀ x, Complex.sin (asin x) = x) ∧ ∀ r : ℝ, -1 ≤ r → r ≤ 1 → asin (r : ℂ) = (Real.arcsin r : ℝ)
+
+/-- such a routine exists -/
+theorem exists_extendsArcsin : ∃ asin : ℂ → ℂ, ExtendsArcsin asin := by
+  classical
+  refine ⟨fun x => if x.im = 0 ∧ -1 ≤ x.re ∧ x.re ≤ 1 then ((Real.arcsin x.re : ℝ) : ℂ)
+    else Function.surjInv Complex.sin_surjective x, ?_, ?_⟩
+  · intro x
+    by_cases hx : x.im = 0 ∧ -1 ≤ x.re ∧ x.re ≤ 1
+    · simp only [if_pos hx]
+      rw [← Complex.ofReal_sin, Real.sin_arcsin hx.2.1 hx.2.2]
+      exact Complex.ext rfl (by simp [hx.1])
+    · simp only [if_neg hx]
+      exact Function.surjInv_eq Complex.sin_surjective x
+  · intro r h1 h2
+    simp [h1, h2]
+
+/-- pre-critical real geometry: incidence angles in `(−π/2, π/2)`, Snell arguments in `(−1, 1)`,
+exit angles given by the real arcsine -/
+def PrecriticalFrom (m : Media ℝ) : Leg → List Step → Prop
+  | _, [] => True
+  | ℓ, st :: sts =>
+    (-(Real.pi / 2) < st.θ ∧ st.θ < Real.pi / 2 ∧
+      -1 < legVel m (some st.mOut) / legVel m ℓ * Real.sin st.θ ∧
+      legVel m (some st.mOut) / legVel m ℓ * Real.sin st.θ < 1 ∧
+      st.φ = Real.arcsin (legVel m (some st.mOut) / legVel m ℓ * Real.sin st.θ)) ∧
+    PrecriticalFrom m (some st.mOut) sts
+
+/-- for an arcsine routine extending the real arcsine, every pre-critical real geometry satisfies
+the hypotheses `GoodFrom` of the theorems above -/
+theorem goodFrom_of_precritical (asin : ℂ → ℂ) (hext : ExtendsArcsin asin) (m : Media ℝ)
+    (ℓ : Leg) (steps : List Step) (hp : PrecriticalFrom m ℓ steps) : GoodFrom asin m ℓ steps := by
+  induction steps generalizing ℓ with
+  | nil => trivial
+  | cons st sts ih =>
+    obtain ⟨⟨h1, h2, h3, h4, h5⟩, hrest⟩ := hp
+    refine ⟨⟨?_, ?_, ?_, ?_⟩, ih _ hrest⟩
+    · rw [← Complex.ofReal_sin, hext.2 _ (Real.neg_one_le_sin _) (Real.sin_le_one _),
+        Real.arcsin_sin h1.le h2.le]
+    · rw [snell_cTrig, legVel_toC, legVel_toC, ← Complex.ofReal_sin, ← Complex.ofReal_div,
+        ← Complex.ofReal_mul, hext.2 _ h3.le h4.le, h5]
+    · exact Real.cos_pos_of_mem_Ioo ⟨h1, h2⟩
+    · rw [h5]
+      exact Real.cos_pos_of_mem_Ioo
+        ⟨Real.neg_pi_div_two_lt_arcsin.2 h3, Real.arcsin_lt_pi_div_two.2 h4⟩
+
+/-- non-vacuity: a direct L path at normal incidence in water/aluminium-like media -/
+example : ∃ asin : ℂ → ℂ, (∀ x, Complex.sin (asin x) = x) ∧
+    GoodFrom asin ⟨1000, 2700, 1480, 6320, 3130⟩ none [⟨.L, 0, 0⟩] := by
+  obtain ⟨asin, hext⟩ := exists_extendsArcsin
+  refine ⟨asin, hext.1, goodFrom_of_precritical asin hext _ _ _ ?_⟩
+  have := Real.pi_pos
+  refine ⟨⟨by linarith, by linarith, by simp, by simp, by simp⟩, trivial⟩
+
+end star
 
 end Arim.C03
